@@ -613,3 +613,95 @@ func ruleP9(r *Run) {
 		r.Undec("batch loops", 0, "no range loops / Range callbacks found in rpc/plugins/push")
 	}
 }
+
+// P10 (C19): the broker marks a withdrawn topic by storing a nil value in the subscriber's topic
+// map. A single-value type assertion on a value of that map panics on the nil interface.
+func init() {
+	register("P10", "in a package that stores nil into a sync.Map (the broker's marker for a withdrawn topic), every value loaded or ranged from a sync.Map is type-asserted to a pointer type only in the comma-ok form or under a dominating != nil test: otherwise the first delivery, heartbeat or unsubscribe after a Deny panics", 4, ruleP10)
+}
+
+func ruleP10(r *Run) {
+	p := r.P
+	pkg := p.Pkg("rpc/plugins/push")
+	if pkg == nil {
+		r.Undec("package rpc/plugins/push", 0, "not found")
+		return
+	}
+	info := pkg.TypesInfo
+	var nilStore token.Pos
+	for _, file := range pkg.Syntax {
+		ast.Inspect(file, func(n ast.Node) bool {
+			c, ok := n.(*ast.CallExpr)
+			if !ok || methodName(c) != "Store" || len(c.Args) != 2 {
+				return true
+			}
+			if f := Callee(info, c); f == nil || FullName(f) != "sync.Map.Store" && FullName(f) != "sync.(*Map).Store" && !strings.HasSuffix(FullName(f), "Map.Store") {
+				return true
+			}
+			if id, ok := ast.Unparen(c.Args[1]).(*ast.Ident); ok && id.Name == "nil" {
+				nilStore = c.Pos()
+			}
+			return true
+		})
+	}
+	if !nilStore.IsValid() {
+		r.Ok("no nil markers stored", 0, "no Store(key, nil) on a sync.Map in rpc/plugins/push")
+		return
+	}
+	n := 0
+	for _, file := range pkg.Syntax {
+		for _, d := range file.Decls {
+			fd, ok := d.(*ast.FuncDecl)
+			if !ok || fd.Body == nil {
+				continue
+			}
+			parents := parentMap(fd.Body)
+			perFn := 0
+			ast.Inspect(fd.Body, func(m ast.Node) bool {
+				ta, ok := m.(*ast.TypeAssertExpr)
+				if !ok || ta.Type == nil {
+					return true
+				}
+				tv, ok := info.Types[ta.Type]
+				if !ok {
+					return true
+				}
+				pt, isPtr := tv.Type.Underlying().(*types.Pointer)
+				if !isPtr {
+					return true
+				}
+				// only the element type that is marked by nil: pointers to structs of this package
+				if nn, ok := pt.Elem().(*types.Named); !ok || nn.Obj().Pkg() != pkg.Types {
+					return true
+				}
+				n++
+				perFn++
+				key := fmt.Sprintf("assertion %s in %s #%d", types.ExprString(ta), p.DeclName(fd), perFn)
+				// comma-ok?
+				if as, ok := parents[ta].(*ast.AssignStmt); ok && len(as.Lhs) == 2 && len(as.Rhs) == 1 {
+					r.Ok(key, ta.Pos(), "comma-ok form")
+					return true
+				}
+				xs := types.ExprString(ast.Unparen(ta.X))
+				guard := false
+				for _, fc := range factsWithSwitch(parents, ta) {
+					be, ok := fc.e.(*ast.BinaryExpr)
+					if !ok || types.ExprString(ast.Unparen(be.X)) != xs {
+						continue
+					}
+					if id, ok := ast.Unparen(be.Y).(*ast.Ident); !ok || id.Name != "nil" {
+						continue
+					}
+					if (be.Op == token.NEQ && !fc.neg) || (be.Op == token.EQL && fc.neg) {
+						guard = true
+					}
+				}
+				r.Check(guard, key, ta.Pos(), "under a != nil test", fmt.Sprintf("%s is a value of a topic map in which a withdrawn topic is marked by a stored nil (%s): the single-value assertion panics with 'interface conversion: interface {} is nil' on the first delivery, heartbeat or unsubscribe after a Deny", xs, p.Rel(nilStore)))
+				return true
+			})
+		}
+	}
+	if n == 0 {
+		r.Undec("assertions on topic map values", 0, "nil markers are stored but no assertion to a pointer type was found")
+	}
+}
